@@ -493,17 +493,17 @@ func (b *Reader) WriteTo(w io.Writer) (n int64, err error) {
 	if err != nil {
 		return
 	}
+	if b.r == b.w {
+		// nothing is buffered any more: forget the old bytes in front of b.r, which
+		// UnreadByte must not re-expose after bytes have gone past the buffer
+		b.r, b.w = 0, 0
+	}
 
 	if r, ok := b.rd.(io.WriterTo); ok {
 		m, err := r.WriteTo(w)
 
 		if m > 0 {
 			b.TotalRead += int(m)
-			if b.r == b.w {
-				// these bytes went past the buffer: what it still holds is older than
-				// the last byte consumed and must not be re-exposed by UnreadByte
-				b.r, b.w = 0, 0
-			}
 		}
 
 		n += m
